@@ -120,6 +120,34 @@ theorem dequeued_then_dropped_only_by_other_exit (progs : List (List Op)) (sched
   have q := qinv_run _ sched (qinv_init progs)
   exact ⟨q.dropped_one, q.dropped_why, q.handled_eq⟩
 
+/-- (a, round 4) **A later stop / kill excuses nothing that should already have happened.** In
+EVERY reachable state in which the live receiver has nothing left to do (mailbox empty, nothing
+taken, not stopped) every send that has returned `Ok` so far has been handled — whatever the other
+threads are in the middle of, and whatever happens afterwards (`handled` only grows:
+`handled_in_enqueue_order`, `Mono.handledPrefix`). The driver evaluates `quietViolations` after every
+receiver run that leaves the actor alive, so a case that ends with a stop or kill is still judged up
+to its last quiet point. -/
+theorem ok_sends_are_handled_whenever_the_mailbox_is_quiet (progs : List (List Op)) (sched : List Tid)
+    (hq : quiet (run (init progs) sched).sh = true) :
+    quietViolations (okIds (run (init progs) sched).sh.rets) (run (init progs) sched).sh.handled = [] := by
+  have h := quiet_all_ok_handled (reach_run progs sched) hq
+  have : (okIds (run (init progs) sched).sh.rets).all (run (init progs) sched).sh.handled.contains = true := by
+    rw [List.all_eq_true]
+    intro i hi
+    generalize (run (init progs) sched).sh.rets = rets at h hi
+    generalize (run (init progs) sched).sh.handled = hd at h
+    induction rets with
+    | nil => simp [okIds] at hi
+    | cons r l ih =>
+      simp only [okIds, List.mem_append] at hi
+      rcases hi with hi | hi
+      · have hr := h r List.mem_cons_self
+        cases hk : r.kind <;> cases hres : r.res <;> simp [hk, hres] at hi
+        subst hi
+        simpa using hr (by simp [Ret.isOkSend, Ret.isSend, hk, hres])
+      · exact ih hi (fun r hr => h r (List.mem_cons_of_mem _ hr))
+  simp [quietViolations, this]
+
 /-- (b) The receiver handles messages in enqueue order: the handled sequence is a prefix of the
 sequence of messages in enqueue order (as long as nothing was flushed, i.e. while it is alive). -/
 theorem handled_in_enqueue_order (progs : List (List Op)) (sched : List Tid) :
@@ -447,6 +475,7 @@ end C02
 #print axioms C02.rejected_never_handled
 #print axioms C02.accepted_message_fate
 #print axioms C02.dequeued_then_dropped_only_by_other_exit
+#print axioms C02.ok_sends_are_handled_whenever_the_mailbox_is_quiet
 #print axioms C02.handled_in_enqueue_order
 #print axioms C02.real_time_order
 #print axioms C02.real_time_order_handled
